@@ -138,6 +138,29 @@ def run(ctx):
         ctx.check(okc, "SIBLING", "C03:SIBLING:collector:rejects-non-mapping", "the mapping collector rejects anything but a MappingStart", "collect_entries_from_map accepts a non-mapping node", config, ctx.where(col))
         # merge keys are recognised inside merged mappings too
         ctx.check(any(fx.callee(t) == mk.npath for bb, t in col.calls()), "SIBLING", "C03:SIBLING:collector:nested-merges", "nested merge keys are expanded inside merged mappings", "collect_entries_from_map no longer recognises nested merge keys", config, ctx.where(col))
+        # ---- ORDER: precedence among merge sources.  Merged entries are consumed first-occurrence-wins, and a later source
+        # overrides an earlier one, so wherever several sources' batches are combined into one list they are taken
+        # last-first: every list of batches (Vec<Vec<PendingEntry>>) is filled with push and drained with pop only.
+        nb = 0
+        for f2 in sorted(fx.fns.values(), key=lambda g: g.npath):
+            if not f2.file.endswith("src/de.rs"):
+                continue
+            blocals = [i for i, l in enumerate(f2.d["locals"]) if "Vec<std::vec::Vec<de::PendingEntry" in l["ty"] and l.get("name") and not l["ty"].startswith("&")]
+            for bl in blocals:
+                nb += 1
+                nm = f2.local_name(bl)
+                ops = []
+                for b2, t2 in f2.calls():
+                    if t2["args"] and render(f2.sym_operand(t2["args"][0])) == nm:
+                        ops.append(last_seg(fx.callee_decl(t2)))
+                moved = any(s_["k"] == "assign" and s_["rv"]["k"] == "use" and (s_["rv"]["o"].get("mv") or {}).get("l") == bl and not (s_["rv"]["o"].get("mv") or {}).get("pr") for _b, _i, s_ in f2.stmts())
+                bad = sorted(set(ops) - {"push", "pop", "new", "with_capacity", "is_empty", "len", "reserve"})
+                ctx.check("push" in ops and "pop" in ops and not bad, "ORDER", "C03:ORDER:batches-last-first:%s:%s" % (f2.name, nm), "`%s` is filled with push and drained with pop (last source first)" % nm,
+                          "%s consumes its list of merge batches `%s` with %s: the batches are taken first-to-last, so an earlier merge source overrides a later one" % (f2.name, nm, bad or "something other than pop"), config, ctx.where(f2))
+        ctx.floor("ORDER.batch-lists", nb, 3, config)
+        # the mapping access's own stack of batches
+        eq = [g for g in fx.fns.values() if g.name == "enqueue_next_merge_batch"]
+        ctx.check(bool(eq) and any(last_seg(fx.callee_decl(t2)) == "pop" and render(g.sym_operand(t2["args"][0])).endswith("merge_stack") for g in eq for b2, t2 in g.calls()), "ORDER", "C03:ORDER:merge_stack-pop", "the mapping's merge batches are dequeued with pop (last `<<` entry first)", "enqueue_next_merge_batch no longer pops the merge stack", config, ctx.where(eq[0]) if eq else None)
         # ---- DOM: flushing
         f = fx.fn(NKS)
         ctx.saw(f)
